@@ -168,6 +168,11 @@ func (x *Exec) inlineCall(bc *blockCtx, in ssa.Instruction, f *ssa.Function, bin
 		sub.prefix = bc.fr.prefix + shortFn(fnKey(f)) + "/"
 	}
 	sub.fc = x.prog.Contracts.Funcs[fnKey(f)]
+	if sub.fc != nil && x.rootC != nil && x.rootC.InlineCallees[fnKey(f)] {
+		// `inlinecall`: the callee is executed from its body as plain code - its own
+		// loop invariants (which abstract the loops) are not used
+		sub.fc = nil
+	}
 	sub.loops = x.prog.loopsOf(f)
 	env := newEnv(nil)
 	for i, p := range f.Params {
